@@ -253,13 +253,14 @@ theorem seq_restore_exact {H : Bytes → Bytes} (hinj : Function.Injective H) (h
 
 /-! ### The restorer under concurrent callers -/
 
-/-- `RestoreChunk` is phase 1 (pending check under the lock) followed by the import and phase 2
-(bookkeeping under the lock): the sequential machine used above is their composition. -/
+/-- `RestoreChunk` is phase 1 (pending check under the lock; the call remembers the restore it saw)
+followed by the import and phase 2 (under the lock: `ErrNoRestoreInProgress` if that restore is no longer
+the one in progress, else bookkeeping): the sequential machine used above is their composition. -/
 theorem restorer_two_phase (H : Bytes → Bytes) (root : Bytes) (rs : Restorer) (idx : Nat) (c : ChunkData) :
     rsRestoreChunk H root rs idx c =
       (match rsBegin rs idx with
        | .error e => (.error e, rs)
-       | .ok _ => rsFinish H root rs idx c) :=
+       | .ok seen => rsFinish H root rs idx seen c) :=
   rsRestoreChunk_two_phase H root rs idx c
 
 /-- **Concurrent sessions are sound**: for every interleaving of `StartRestore`, `AbortRestore` and the
@@ -270,9 +271,29 @@ theorem concurrent_session_sound {H : Bytes → Bytes} (hinj : Function.Injectiv
     ∀ x ∈ (cRun H (hashWith H T) {} evs).rs.db, x ∈ T.nodeHashes H :=
   cRun_sound hinj hlen T (wfAt_bounded hwf hb) evs {} (by intro x hx; simp at hx)
 
+/-- **Completion under concurrency** (the rule of commit 3c2e444): for EVERY interleaving of starts,
+aborts — explicit, or performed by `RestoreChunk` itself on a proof failure — and the two phases of any
+number of concurrent callers (honest chunk bytes), whenever a `RestoreChunk` call reports completion,
+every chunk of the checkpoint has been imported. -/
+theorem concurrent_done_all_imported {H : Bytes → Bytes} {root : Bytes} (cs : List (List (Option Bytes)))
+    (evs : List CEvent) (hh : ∀ e ∈ evs, HonestCEvent cs e) (ev : CEvent) (hev : HonestCEvent cs ev)
+    (hdone : (cStep H root (cRun H root {} evs) ev).2 = some (.ok true)) :
+    ∀ i, i < cs.length → ∀ x ∈ imported H root cs i, x ∈ (cStep H root (cRun H root {} evs) ev).1.rs.db :=
+  conc_done_all_in cs evs {} (fun n hn => by simp at hn) hh ev hev hdone
+
+/-- **Completion iff all indices imported**, also between the phases of concurrent callers: a second
+phase that succeeds saw the restore that is still in progress, and reports completion exactly when its
+index was the last pending one. -/
+theorem concurrent_done_iff (H : Bytes → Bytes) (root : Bytes) (rs : Restorer) (idx seen : Nat) (c : ChunkData) (b : Bool)
+    (h : (rsFinish H root rs idx seen c).1 = .ok b) :
+    rs.current.isSome ∧ rs.gen = seen ∧ (b = true ↔ ∀ i ∈ rs.pending, i = idx) :=
+  rsFinish_done_iff H root rs idx seen c b h
+
 /-- **Each chunk index is imported at most once per session** (linearised calls): after a successful
 `RestoreChunk(idx)`, every later `RestoreChunk(idx)` before the next `StartRestore` is refused
-(`ErrChunkAlreadyRestored`, or `ErrNoRestoreInProgress` after completion/abort) and imports nothing. -/
+(`ErrChunkAlreadyRestored`, or `ErrNoRestoreInProgress` after completion/abort) and imports nothing.
+(Two callers that are both between the phases for the same index both import it; the import is
+idempotent — the database is a set of nodes — and only one of them can report completion.) -/
 theorem restore_at_most_once (H : Bytes → Bytes) (root : Bytes) (rs : Restorer) (idx : Nat) (c : ChunkData) (b : Bool)
     (h : (rsRestoreChunk H root rs idx c).1 = .ok b) (evs : List REvent) (hns : ∀ e ∈ evs, ∀ n, e ≠ .start n)
     (c' : ChunkData) :
@@ -282,30 +303,23 @@ theorem restore_at_most_once (H : Bytes → Bytes) (root : Bytes) (rs : Restorer
     (rsRestoreChunk H root rs' idx c').2.db = rs'.db :=
   rs_at_most_once H root rs idx c b h evs hns c'
 
-/-- **Completion iff all indices imported** (linearised calls): a successful `RestoreChunk(idx)`
-reports completion exactly when `idx` was the last pending index; together with `restore_exact`
-(completion ⇒ every chunk imported) this is "done iff everything is in". -/
+/-- Completion exactly at the last pending index (linearised calls). -/
 theorem restore_done_iff (H : Bytes → Bytes) (root : Bytes) (rs : Restorer) (idx : Nat) (c : ChunkData) (b : Bool)
     (h : (rsRestoreChunk H root rs idx c).1 = .ok b) : b = true ↔ ∀ i ∈ rs.pending, i = idx :=
   rs_done_iff H root rs idx c b h
 
-/-- **Completion under concurrency.** For every interleaving of the phases of concurrent `RestoreChunk`
-calls (honest chunk bytes) in which no abort or restart cuts through a call in flight — `Calm`: an
-explicit `AbortRestore`/`StartRestore`, or the abort `RestoreChunk` performs on a proof failure, only
-happens while no other call is between its phases — whenever a call reports completion, every chunk
-of the checkpoint has been imported. -/
-theorem concurrent_done_all_imported {H : Bytes → Bytes} {root : Bytes} (cs : List (List (Option Bytes)))
-    (evs : List CEvent) (hh : ∀ e ∈ evs, HonestCEvent cs e) (hcalm : Calm H root {} evs)
-    (ev : CEvent) (hev : HonestCEvent cs ev) (hc : calmStep H root (cRun H root {} evs) ev)
-    (hdone : (cStep H root (cRun H root {} evs) ev).2 = some (.ok true)) :
-    ∀ i, i < cs.length → ∀ x ∈ imported H root cs i, x ∈ (cStep H root (cRun H root {} evs) ev).1.rs.db :=
-  calm_done_all_in cs evs {} ⟨fun n hn => by simp at hn, fun _ hne => absurd rfl hne⟩ hh hcalm ev hev hc hdone
+/-! ### Historical: the rule before commit 3c2e444 -/
 
-/- The linearisation hypothesis is forced by the code: phase 2 does not check that the restore phase 1
-saw is still in progress. With a call in flight across an abort (which `RestoreChunk` itself performs
-when another caller's chunk fails proof verification) the in-flight call reports completion although
-other chunks were never imported — witnessed below on the model and reproduced on the real restorer by
-the driver (finding `restorer-done-after-concurrent-abort`). -/
+/-- Phase 2 as it was before the repair: it did not look at the restore in progress. -/
+def rsFinishOld (H : Bytes → Bytes) (root : Bytes) (rs : Restorer) (idx : Nat) (c : ChunkData) :
+    Except RErr Bool × Restorer :=
+  match restoreChunkM H root rs.db c with
+  | .error .proofFailed => (.error .proofFailed, rsAbort rs)
+  | .error e => (.error e, rs)
+  | .ok db =>
+    let pending := rs.pending.filter (· ≠ idx)
+    if pending.isEmpty then (.ok true, { rs with current := none, pending := [], db := db })
+    else (.ok false, { rs with pending := pending, db := db })
 
 /-! ### Non-vacuity -/
 
@@ -339,15 +353,18 @@ example :
     isDone (rsRestoreChunk toyHash root rs 1 { digestOk := true, entries := cs[1]? }).1 = true := by
   decide +kernel
 
-/-- **Witness: completion reported after a concurrent abort.** Three chunks; caller A passes phase 1 for
-chunk 0; the restore is aborted (as `RestoreChunk` does when caller B's chunk fails verification); A's
-import and phase 2 then report `done = true` although chunks 1 and 2 were never imported. -/
+/-- **Historical witness (rule before commit 3c2e444): completion reported after a concurrent abort.**
+Three chunks; caller A passes phase 1 for chunk 0; the restore is aborted (as `RestoreChunk` does when
+caller B's chunk fails verification); with the old phase 2 A's call then reports `done = true` although
+chunks 1 and 2 were never imported. With the repaired phase 2 the same call is refused. -/
 theorem done_after_concurrent_abort_witness :
     let cs := seqChunks (toyHash []) 1 (annotate toyHash smallTree)
     let root := hashWith toyHash smallTree
     let s := cRun toyHash root {} [.start 3, .begin 0, .abort]
-    isDone' (cStep toyHash root s (.finish 0 { digestOk := true, entries := cs[0]? })).2 = true ∧
-    coverB toyHash root smallTree [cs[0]!] = false := by
+    isDone (rsFinishOld toyHash root s.rs 0 { digestOk := true, entries := cs[0]? }).1 = true ∧
+    coverB toyHash root smallTree [cs[0]!] = false ∧
+    s.inflight = [(0, 1)] ∧
+    isDone' (cStep toyHash root s (.finish 0 1 { digestOk := true, entries := cs[0]? })).2 = false := by
   decide +kernel
 
 end OasisProofs.C12
